@@ -9,7 +9,16 @@ vars == <<l, phase, bad>>
 CheckEnc(e) == e.res = "ok" /\ e.y = BytesOf(Encrypt(WordsOf(e.key), e.t0, e.t1, WordsOf(e.x)))
 CheckInv(e) == /\ e.res = "ok" /\ e.x2 = e.x /\ e.x3 = e.x
                /\ e.z = BytesOf(Decrypt(WordsOf(e.key), e.t0, e.t1, WordsOf(e.x)))
-Check(e) == IF IOEnv.MODE = "enc" THEN CheckEnc(e) ELSE CheckInv(e)
+\* "tfb": several blocks through one encrypt_blocks / decrypt_blocks call; every block as if it were alone
+Blk(bs, i, n) == SubSeq(bs, (i - 1) * n + 1, i * n)
+CheckBlocks(e) == LET n == e.size
+                      m == Len(e.xs) \div n
+                      k == WordsOf(e.key)
+                  IN /\ e.res = "ok" /\ Len(e.ys) = Len(e.xs) /\ Len(e.zs) = Len(e.xs)
+                     /\ \A i \in 1..m :
+                          IF IOEnv.MODE = "enc" THEN Blk(e.ys, i, n) = BytesOf(Encrypt(k, e.t0, e.t1, WordsOf(Blk(e.xs, i, n))))
+                          ELSE Blk(e.zs, i, n) = BytesOf(Decrypt(k, e.t0, e.t1, WordsOf(Blk(e.xs, i, n))))
+Check(e) == IF e.ev = "tfb" THEN CheckBlocks(e) ELSE IF IOEnv.MODE = "enc" THEN CheckEnc(e) ELSE CheckInv(e)
 Init == l \in 1..N /\ phase = 0 /\ bad = FALSE
 Next == /\ phase = 0 /\ phase' = 1 /\ l' = l
         /\ bad' = IF Check(Rec[l]) THEN FALSE ELSE PrintT(<<"REJECT", l>>)
